@@ -1,6 +1,6 @@
 """C17 (grammar / diagnostics), C20 (layout), C08 (positions), C19 (introspection options), C06 (robustness),
 C10 (well-formed bytecode)."""
-import json, random, re
+import itertools, json, random, re
 from .core import F, casehash
 from .genprog import Gen, strip_markers, str_lit
 from . import interp, tokens
@@ -225,6 +225,36 @@ def check_C08(ctx):
             if lfs != want:
                 ctx.violation("line table differs from the newline offsets of the source", case, impl=lfs[:200], model=want[:200],
                               theorem="lfs_is_newlines", key="lfs-differs")
+    # the same diagnostics when the input arrives in reads: real 4096-byte pages and small reads, with a multi-byte
+    # character straddling the boundary and the diagnostic / runtime error / warning in a later read
+    ch_cases = []
+    for k, mb in itertools.product(range(0, 4), ["é", "€", "😀", "\u0085"]):
+        enc = mb.encode()
+        pad = b"# " + b"x" * (4096 - 2 - 1 - k) + enc + b"\n"           # the character starts k+1 bytes before offset 4096
+        for bad in [b"print 1 +\n", b"var q = )\nprint 2\n", b"print 1 / 0\n", b"def t {}\nbind t -> struct\nbind t -> struct\n"]:
+            body = b"var a = 1\n\n# c " + enc + b"\nprint a\n" * 3 + bad
+            ch_cases.append(dict(id="pg%d-%d-%d" % (k, len(enc), len(ch_cases)), name="f.bcl", src_hex=(pad + body).hex(),
+                                 partitions=[[], [4096], [4095], [4097], [7], [1]]))
+    cres, cmiss, cerr = ctx.probe("chunks", ch_cases, tag="pages", timeout=3000)
+    for c in ch_cases:
+        r = cres.get(c["id"])
+        if not r:
+            continue
+        for p in r["parts"]:
+            ctx.count(1, casehash(c["src_hex"], json.dumps(p["sizes"])))
+            if not p["same"]:
+                ctx.violation("diagnostics / positions of ParseFile differ from Parse when the input arrives in reads %s" % p["sizes"],
+                              dict(src_hex=c["src_hex"][-400:], sizes=p["sizes"], note="a multi-byte character straddles the 4096-byte page boundary"),
+                              impl=p.get("obs"), model=r["whole"], theorem="C08_independent_of_lookahead", key="chunked-diag-differs")
+        # and the whole-input diagnostics themselves against the documented rule
+        wl = bytes.fromhex(r["whole"]["Log"])
+        srcb = bytes.fromhex(c["src_hex"])
+        for mm in re.finditer(rb"^(?:WARNING: )?line (\d+):(\d+): ", wl, re.M):
+            pos = offset_of(srcb, int(mm.group(1)), int(mm.group(2)))
+            if pos is None or spec_linecol(srcb, pos) != (int(mm.group(1)), int(mm.group(2))):
+                ctx.violation("position %s:%s is not a source offset by the documented rule" % (mm.group(1).decode(), mm.group(2).decode()),
+                              dict(src_hex=c["src_hex"][-300:]), impl=wl.decode("utf8", "replace")[:300], theorem="C08_linecol", key="diag-badpos")
+    ctx.suite_stats["diag"]["paged_cases"] = len(ch_cases)
     # lineColAt alone against the model and against the specification, on arbitrary sorted tables
     lc_cases = []
     for i in range(ctx.n(300, 3000)):
@@ -447,6 +477,13 @@ def check_C10(ctx):
         srcs.append(b"def a {" * n + b" x = 1 and 2 or 3\n var v = x\n" + b"}" * n + b"\n")
     srcs.append(b"".join(b"var v%d = %d and v%d or %d\n" % (i, i, max(i - 1, 0), i) for i in range(1, 300)) + b"print v299\n")
     srcs.append(b"def t { " + b" ".join(b"f%d = %d" % (i, i) for i in range(300)) + b" }\nbind t -> struct\n")
+    # jump distances around the 16-bit limit, both branches taken: the skipped operand must be skipped exactly
+    for n in [32766, 32767, 32768, 32769, 40000]:
+        big = b"(1" + b"+1" * n + b")"
+        srcs += [b"print false and " + big + b"\n", b"print true and " + big + b"\n", b"print 7 or " + big + b"\n"]
+    for n in [10, 26, 27, 28, 29, 30, 31, 40, 241, 242]:
+        srcs.append(b"".join(b"var v%d = %d\n" % (i, i + 2) for i in range(n)))
+        srcs.append(b"def b {\n" + b"".join(b"var v%d = %d\n" % (i, i + 2) for i in range(n)) + b"}\n")
     cases = [dict(id="w%d" % i, src=s) for i, s in enumerate(srcs)]
     rs, missing, err = interp.run(ctx, cases)
     decide(ctx, rs, missing, err, {"parts"}, "C10_wellformed", "wf")
